@@ -17,6 +17,7 @@
    A failure is minimised and reported as a counterexample with a replay command."""
 import itertools
 import json
+import time
 
 import vlib
 from vlib import proof_coverage
@@ -275,13 +276,18 @@ def run_impl(ctx, cases):
     out, meta = [], None
     for i in range(0, len(cases), 4000):
         chunk = [{k: c[k] for k in ("kind", "cap", "init", "ops")} for c in cases[i:i + 4000]]
-        d = json.loads(ctx.impl("impl_heap.py", {"cases": chunk}, timeout=3000))
+        try:
+            d = json.loads(ctx.impl("impl_heap.py", {"cases": chunk}, timeout=3000))
+        except RuntimeError as e:
+            if "TRANSLATOR:" in str(e):
+                raise vlib.TranslatorError(str(e).split("TRANSLATOR:", 1)[1].strip()[:300])
+            raise
         out += d["results"]
         meta = {k: d[k] for k in ("fields", "methods")}
     return out, meta
 
 
-def run_model(ctx, cases, per_file=400):
+def run_model(ctx, cases, per_file=1200):
     chunks = [cases[i:i + per_file] for i in range(0, len(cases), per_file)]
     outs = ctx.coq_eval_many({f"cases{i}": coq_file(ch) for i, ch in enumerate(chunks)}, timeout=1500)
     res = []
@@ -345,13 +351,9 @@ def features(c, res):
     return pushes >= 2 and pops >= 1
 
 
-def run(ctx):
-    stale = generate(ctx)
-    info = ctx.coq_props()
-    broken = (not info["ok"]) or bool(stale)
-    big = (not ctx.quick) or broken          # a broken tie/proof always gets the thorough search
-    r = vlib.rng(ctx.seed, "C27")
-
+def campaign(ctx, big, salt, phase):
+    """generate scripts, run both sides, compare.  Returns a dict."""
+    r = vlib.rng(ctx.seed, "C27" + salt)
     cases = []
     corpus = ctx.dir / "corpus"
     if corpus.exists():
@@ -365,23 +367,17 @@ def run(ctx):
     if big:
         cases += interleavings(6, 2)
     cases += stack_small(4 if big else 3, 2)
-    cases += random_cases(r, 6000 if big else 600, ctx.quick)
-    cases += malformed_cases(r, 1500 if big else 200)
+    cases += random_cases(r, 4000 if big else 600, ctx.quick)
+    cases += malformed_cases(r, 1000 if big else 200)
     # search-only scripts: implementation vs reference models (cheap, no Coq evaluation)
-    search = [dict(c, tag="search-" + c["tag"]) for c in random_cases(r, 60000 if big else 6000, ctx.quick)]
+    search = [dict(c, tag="search-" + c["tag"]) for c in random_cases(r, 40000 if big else 5000, ctx.quick)]
     if big:
-        search += [dict(c, tag="search-" + c["tag"]) for c in insertion_orders(3, 8) + insertion_orders(4, 7)]
-
+        search += [dict(c, tag="search-" + c["tag"]) for c in insertion_orders(3, 8) + insertion_orders(4, 6)]
     n_x = len(cases)
+    t1 = time.time()
     impl_all, meta = run_impl(ctx, cases + search)
-    impl, impl_search = impl_all[:n_x], impl_all[n_x:]
-
-    model = None
-    try:
-        model = run_model(ctx, cases)
-    except RuntimeError as e:
-        ctx.notes.append(f"model evaluation failed: {str(e)[:1500]}")
-
+    phase["impl_exec" + salt] = round(time.time() - t1, 1)
+    impl = impl_all[:n_x]
     # ---- reference models vs implementation (the failing-input search)
     spec_fail = []
     for c, res in zip(cases + search, impl_all):
@@ -389,9 +385,40 @@ def run(ctx):
             d = spec_check(c, res)
             if d is not None:
                 spec_fail.append((c, res, d))
+    # ---- Coq model on the same scripts
+    t1 = time.time()
+    model = None
+    try:
+        model = run_model(ctx, cases)
+    except RuntimeError as e:
+        ctx.notes.append(f"model evaluation failed: {str(e)[:1500]}")
+    phase["model_eval" + salt] = round(time.time() - t1, 1)
+    mism = []
+    if model is not None:
+        mism = [(c, a, b) for c, a, b in zip(cases, impl, model) if a != b]
+    return {"cases": cases, "search": search, "impl": impl, "model": model, "spec_fail": spec_fail,
+            "mism": mism, "meta": meta}
+
+
+def run(ctx):
+    t0 = time.time()
+    phase = {}
+    stale = generate(ctx)
+    info = ctx.coq_props()
+    phase["coq_build_and_props"] = round(time.time() - t0, 1)
+    broken = (not info["ok"]) or bool(stale)
+    res = campaign(ctx, not ctx.quick, "", phase)
+    if broken and ctx.quick and not res["spec_fail"]:
+        # the tie or a proof is broken and the quick volume found no failing script: search harder
+        res2 = campaign(ctx, True, "/escalated", phase)
+        for k in ("cases", "search", "impl", "spec_fail", "mism"):
+            res[k] = res[k] + res2[k]
+        res["model"] = None if (res["model"] is None or res2["model"] is None) else res["model"] + res2["model"]
+    cases, search, impl, model, spec_fail, mism, meta = (res[k] for k in ("cases", "search", "impl", "model", "spec_fail", "mism", "meta"))
+
     reported = 0
     seen_min = set()
-    for c, res, d in sorted(spec_fail, key=lambda t: len(t[0]["ops"]))[:40]:
+    for c, _res, d in sorted(spec_fail, key=lambda t: len(t[0]["ops"]))[:40]:
         if reported >= 3:
             break
         small = shrink(ctx, c)
@@ -412,11 +439,6 @@ def run(ctx):
         reported += 1
 
     # ---- model vs implementation
-    mism = []
-    if model is not None:
-        for c, a, b in zip(cases, impl, model):
-            if a != b:
-                mism.append((c, a, b))
     if mism and not spec_fail:
         for c, a, b in sorted(mism, key=lambda t: len(t[0]["ops"]))[:3]:
             ctx.report("corr:" + key_of(c), "correspondence", "ModelHeap.v vs executed method sources",
@@ -465,7 +487,7 @@ def run(ctx):
         model_vs_impl_mismatches=len(mism), reference_model_failures=len(spec_fail),
         changed_methods=stale, pq_scripts_with_tied_priorities=ties,
         histogram={"by_generator": hist_tag, "by_outcome": hist_out, "by_capacity": {str(k): v for k, v in sorted(hist_cap.items())}},
-        source_shape=meta,
+        source_shape=meta, phase_seconds=phase,
         samples=[{"case": {k2: cases[j][k2] for k2 in ("kind", "cap", "init", "ops", "tag")}, "impl": impl[j]} for j in pick],
         notes=ctx.notes)
     return ctx.finish(LEVEL, cov, [
